@@ -260,7 +260,8 @@ def biased_family(draw):
         call['args'] = call['args'][:-1] + [{'raw': '1 => 2'}]
     fam = {'layers': layers, 'defs': defs}
     fam['decl'] = draw(st.sampled_from(['assembled', 'signature',
-                                        'shared-callable']))
+                                        'shared-callable',
+                                        'signature-reregistered']))
     return {'kind': 'family', 'shape': shape, 'family': fam, 'call': call}
 
 
